@@ -165,6 +165,8 @@ OPS = [
   # ---- [Tabulation]
   ("unknown_target", "*", lambda it, info, rng: set_tab(it, "target", rng.choice(["FOO", "lammps", "SETFL", "DL_POLY_EAM_FS", ""]))),
   ("nr_dr_cutoff_all_given", "*", lambda it, info, rng: set_tab(it, "dr", "0.01")),
+  ("all_three_given_one_spelt_zero", "*", lambda it, info, rng: (lambda z: set_tab(set_tab(it, "dr", "0.01"), "cutoff", z) if rng.random() < 0.7 else set_tab(it, "dr", z))(rng.choice(["0", "0.0", "-0.0", "0e0", "+.0", "00"]))),
+  ("rho_all_three_given_one_spelt_zero", "eam fs adp", lambda it, info, rng: set_tab(set_tab(it, "drho", "0.5"), "cutoff_rho", rng.choice(["0", "0.0", "-0.0", "0e0"]))),
   ("step_alone", "*", lambda it, info, rng: set_tab(set_tab(set_tab(it, "nr", None), "cutoff", None), "dr", "0.01")),
   ("nonpositive_nr", "*", lambda it, info, rng: set_tab(it, "nr", rng.choice(["0", "-8"]))),
   ("nonpositive_cutoff", "*", lambda it, info, rng: set_tab(it, "cutoff", rng.choice(["0", "-2.5", "0.0"]))),
